@@ -14,6 +14,8 @@ pub enum Item {
     /// the leading part of a function body, up to and including its first top-level `for` loop, as a function of
     /// its own: (function, new name, parameters as Rust source text, `let`s to drop, result variable, result type)
     Region(&'static str, &'static str, &'static str, &'static [&'static str], &'static str, &'static str),
+    /// a hand-written Lean definition emitted verbatim (a mirror of library / iterator plumbing): (what it mirrors, text)
+    Mirror(&'static str, &'static str),
     /// a struct, with the fields that are kept (others are dropped: references back to owners, caches, ...)
     Struct(&'static str, &'static [&'static str]),
 }
@@ -22,6 +24,7 @@ impl Item {
     pub fn rust_name(&self) -> String {
         match self {
             Item::Fn(n) | Item::Const(n) | Item::Struct(n, _) => n.to_string(),
+            Item::Mirror(n, _) => format!("mirror:{}", n),
             Item::NestedFn(o, n) => format!("{}::{}", o, n),
             Item::Region(f, n, ..) => format!("{}[..first for]=>{}", f, n),
             Item::Method(t, n) => format!("{}::{}", t, n),
@@ -62,15 +65,9 @@ pub fn units() -> Vec<Unit> {
             imports: vec![],
         },
         Unit {
-            module: "RsEncoder",
-            file: "encoder.rs",
-            fns: vec![Item::Fn("encode_vlq_diff"), Item::NestedFn("encode_rmi", "encode_byte")],
-            imports: vec!["RsVlq"],
-        },
-        Unit {
             module: "RsUtils",
             file: "utils.rs",
-            fns: vec![Item::Fn("is_abs_path"), Item::Fn("greatest_lower_bound")],
+            fns: vec![Item::Fn("is_abs_path"), Item::Fn("greatest_lower_bound"), Item::Fn("find_common_prefix_of_sorted_vec"), Item::Fn("make_relative_path")],
             imports: vec![],
         },
         Unit {
@@ -78,8 +75,17 @@ pub fn units() -> Vec<Unit> {
             file: "types.rs",
             fns: vec![
                 Item::Struct("RawToken", &["dst_line", "dst_col", "src_line", "src_col", "src_id", "name_id", "is_range"]),
-                Item::Struct("SourceMap", &["tokens"]),
-                Item::Struct("Token", &["raw", "idx", "offset"]),
+                Item::Struct("SourceMap", &["tokens", "names"]),
+                Item::Struct("Token", &["raw", "sm", "idx", "offset"]),
+                Item::Mirror(
+                    "SourceMap::tokens() / TokenIter::next: yields get_token(0), get_token(1), … until None",
+                    "def rsTokens (sm : SourceMap) : List Token :=\n  (rsEnumerate sm.tokens).map fun p => { raw := p.2, sm := sm, idx := p.1, offset := 0 }",
+                ),
+                Item::Method("Token", "eq"),
+                Item::Method("SourceMap", "get_token"),
+                Item::Method("SourceMap", "get_name"),
+                Item::Method("Token", "get_name"),
+                Item::Method("Token", "has_name"),
                 Item::Method("Token", "get_dst_line"),
                 Item::Method("Token", "get_dst_col"),
                 Item::Method("Token", "get_dst"),
@@ -93,6 +99,29 @@ pub fn units() -> Vec<Unit> {
                 Item::Method("SourceMap", "lookup_token"),
             ],
             imports: vec!["RsUtils"],
+        },
+        Unit {
+            module: "RsEncoder",
+            file: "encoder.rs",
+            fns: vec![Item::Fn("encode_vlq_diff"), Item::NestedFn("encode_rmi", "encode_byte")],
+            imports: vec!["RsVlq"],
+        },
+        Unit {
+            module: "RsSerialize",
+            file: "encoder.rs",
+            fns: vec![Item::Fn("encode_rmi"), Item::Fn("serialize_range_mappings"), Item::Fn("serialize_mappings")],
+            imports: vec!["RsVlq", "RsUtils", "RsTypes", "RsEncoder"],
+        },
+        Unit {
+            module: "RsHermes",
+            file: "hermes.rs",
+            fns: vec![
+                Item::Struct("HermesScopeOffset", &["line", "column", "name_index"]),
+                Item::Struct("HermesFunctionMap", &["names", "mappings"]),
+                Item::Struct("SourceMapHermes", &["function_maps"]),
+                Item::Method("SourceMapHermes", "get_scope_for_token"),
+            ],
+            imports: vec!["RsTypes"],
         },
         Unit {
             module: "RsDecodeTokens",
